@@ -421,20 +421,22 @@ def r7_skip_conditions(ctx):
         found = {}
         home = bodies[0].file
 
-        def expand(c, depth=0):
+        def expand(c, seen=None):
             """a private helper that lives in the checker's own file is a piece of the checker that was given a name: what counts is what
-            it calls (an accessor or predicate defined elsewhere keeps its own name)"""
-            if not c.startswith('pavexc::') or depth > 2:
-                return {c}
+            it calls, however many helpers deep (an accessor or predicate defined elsewhere keeps its own name)"""
+            seen = seen if seen is not None else set()
+            if not c.startswith('pavexc::') or c in seen:
+                return {c} if c not in seen else set()
             hb = ctx.fb.bodies_of_item('pavexc', c)
             if not hb or hb[0].file != home or c in ROSTER or c in VALIDATORS:
                 return {c}
+            seen.add(c)
             out = set()
             for x in hb:
                 for _, t in x.calls():
                     cc = strip_generics(callee(t) or '')
                     if cc and cc != c:
-                        out |= expand(cc, depth + 1)
+                        out |= expand(cc, seen)
             return out
 
         for b in bodies:
